@@ -246,7 +246,7 @@ func (h *harness) reportWriteFailHang(which string, rp any) {
 func sdlRetOf(o btOutcome) string {
 	switch {
 	case o.ret == "rerun" && len(o.state) == 8:
-		return fmt.Sprintf("rerun:%d", binary.BigEndian.Uint64(o.state))
+		return fmt.Sprintf("rerun:%d:%x", binary.BigEndian.Uint64(o.state), o.state)
 	default:
 		return o.ret
 	}
@@ -395,17 +395,56 @@ func (h *harness) sdlFamily() {
 		} else if c.pruned < c.blocks {
 			h.res.Fatalf("statedifflength read-fault family: the undisturbed run returned %s %s", base.ret, base.errText)
 		}
-		// a stale checkpoint below the pruned prefix / above the height, and a malformed one
-		for _, next := range []uint64{1, uint64(c.pruned), uint64(c.blocks), uint64(c.blocks) + 5} {
+		// stored checkpoints around every boundary (pruned prefix, chain height, byte and word boundaries of the
+		// 8-byte big-endian token): the model decodes the token (`sdl.before`), the real Before + Migrate run on it
+		nexts := []uint64{0, 1, uint64(c.pruned), uint64(c.pruned) + 1, uint64(c.blocks) - 1, uint64(c.blocks), uint64(c.blocks) + 5,
+			255, 256, 65535, 65536, 1 << 32, 1<<32 + uint64(c.pruned), 1 << 56, 1 << 63, ^uint64(0)}
+		if c.pruned > 0 {
+			nexts = append(nexts, uint64(c.pruned)-1)
+		}
+		if c.blocks > 1 {
+			nexts = append(nexts, uint64(c.blocks)-2)
+		}
+		for _, next := range nexts {
 			st := make([]byte, 8)
 			binary.BigEndian.PutUint64(st, next)
 			rp := migPlanReplay{Migration: "statedifflength", Spec: fs, Pruned: c.pruned, What: fmt.Sprintf("Before(checkpoint %d), Migrate", next)}
+			dec := h.bt.ask(fmt.Sprintf("sdl.before %x", st))
+			h.res.Compared(1)
+			var mnext uint64
+			if _, err := fmt.Sscanf(dec, "ok %d", &mnext); err != nil {
+				h.res.Mismatch(lib.Mismatch{Sig: "statedifflength-token-rejected-by-model", Input: fmt.Sprintf("%x", st), Model: dec, Impl: "accepted"})
+				continue
+			}
+			if enc := h.bt.ask(fmt.Sprintf("sdl.encode %d", next)); enc != fmt.Sprintf("%x", st) {
+				h.res.Mismatch(lib.Mismatch{Sig: "statedifflength-token-encoding-differs", Input: next, Model: enc, Impl: fmt.Sprintf("%x", st)})
+			}
 			o := runMigrator(&statedifflength.Migrator{}, st, d0, btPlan{}, false, 6*time.Second, true)
 			h.res.Hit("sdl-stale-checkpoint:" + o.ret)
 			if o.ret == "hang" || o.ret == "panic" {
 				continue
 			}
-			h.sdlTransition(sdlObs{next, pre0, sdlAbstract(o.final, height), sdlRetOf(o), false}, map[string]any{"replay": rp})
+			// the model's Migrate runs from the checkpoint the MODEL decoded
+			h.sdlTransition(sdlObs{mnext, pre0, sdlAbstract(o.final, height), sdlRetOf(o), false}, map[string]any{"replay": rp})
+		}
+		// Before alone: every token length 0..17 (only 0 and 8 are accepted), nil included
+		for n := -1; n <= 17; n++ {
+			var st []byte
+			tok := "nil"
+			if n >= 0 {
+				st = make([]byte, n)
+				for i := range st {
+					st[i] = byte(0x11 * (i + 1))
+				}
+				tok = showState(st)
+			}
+			err := (&statedifflength.Migrator{}).Before(st)
+			dec := h.bt.ask("sdl.before " + tok)
+			h.res.Compared(1)
+			h.res.Hit(fmt.Sprintf("sdl-before:len%d", n))
+			if (err == nil) != strings.HasPrefix(dec, "ok") {
+				h.res.Mismatch(lib.Mismatch{Sig: "statedifflength-before-accepts-differently", Input: tok, Model: dec, Impl: fmt.Sprint(err)})
+			}
 		}
 		if o := runMigrator(&statedifflength.Migrator{}, []byte{1, 2, 3}, d0, btPlan{}, false, 6*time.Second, true); o.ret != "failed" {
 			h.res.Violate(lib.Violation{Sig: "statedifflength-accepts-malformed-checkpoint", What: "Before([3 bytes]) did not fail: " + o.ret,
